@@ -4,7 +4,7 @@ property in meta.json; `all` = every claimed check), record which checks raise a
 Evidence files are restored afterwards (evidence must come from the unchanged tree)."""
 import json, os, shutil, subprocess, sys, tempfile, time
 V = os.path.dirname(os.path.dirname(os.path.abspath(__file__)))
-REPO = os.environ.get("KALIGN_REPO", "/repo")
+REPO = os.environ.get("KALIGN_REPO") or "/repo"
 
 
 def sh(cmd, **kw):
